@@ -172,6 +172,17 @@ class Gen:
         t = self.ty(d - 1)
         while t.kind in ("none", "optional", "union", "any"): t = self.ty(d - 1)
         return Node("optional", ["union", [t.lean, ["none"]]], f"Optional[{t.py}]", [t])
+    def _one_spelling(self, ts):
+        """typing compares Union[A, B] and Union[B, A] equal, and caches List[...] / Annotated[...] / Optional[...] subscriptions
+        on equality: a second spelling of the same set of alternatives would silently denote the first object.  Within one
+        generated module every set of alternatives keeps the order in which it was first drawn."""
+        memo = self.__dict__.setdefault("_union_orders", {})
+        key = frozenset(t.py for t in ts)
+        if key in memo:
+            by = {t.py: t for t in ts}
+            return [by[p] for p in memo[key]]
+        memo[key] = [t.py for t in ts]
+        return ts
     def g_union(self, d):
         ts, seen = [], set()
         for _ in range(self.rnd.randint(2, 3)):
@@ -179,11 +190,12 @@ class Gen:
             if t.kind in ("union", "optional", "any") or t.py in seen: continue
             seen.add(t.py); ts.append(t)
         if len(ts) < 2: return self.g_optional(d)
+        ts = self._one_spelling(ts)
         return Node("union", ["union", [t.lean for t in ts]], f"Union[{', '.join(t.py for t in ts)}]", ts)
     def g_cunion(self, d):
         """constraints attached to the union itself (they reach every alternative): Annotated[Union[int, str, ...], schema(min=0, max_len=3)]"""
         alts = [self.g_int(0), self.g_str(0)] + ([Node("list", ["list", ["int"]], "List[int]", [self.g_int(0)])] if self.rnd.random() < 0.4 else [])
-        self.rnd.shuffle(alts)
+        self.rnd.shuffle(alts); alts = self._one_spelling(alts)
         u = Node("union", ["union", [t.lean for t in alts]], f"Union[{', '.join(t.py for t in alts)}]", alts)
         cons = self.rnd.choice([({"min": ["i", "0"], "max_len": 3}, "min=0, max_len=3"), ({"max": ["i", "10"], "min_len": 1}, "max=10, min_len=1"),
                                 ({"exc_min": ["i", "0"], "max_items": 2}, "exc_min=0, max_items=2")])
@@ -196,7 +208,7 @@ class Gen:
         short = Node("tuple", ["tuple", [t.lean for t in prim]], f"Tuple[{', '.join(t.py for t in prim)}]", prim)
         longer = prim + [conv]
         long_ = Node("tuple", ["tuple", [t.lean for t in longer]], f"Tuple[{', '.join(t.py for t in longer)}]", longer)
-        ts = [short, long_] if self.rnd.random() < 0.7 else [long_, short]
+        ts = self._one_spelling([short, long_] if self.rnd.random() < 0.7 else [long_, short])
         return Node("union", ["union", [t.lean for t in ts]], f"Union[{', '.join(t.py for t in ts)}]", ts)
     def g_newtype(self, d):
         t = self.ty(d - 1)
